@@ -171,7 +171,7 @@ type suite struct {
 func (s *suite) add(kind, line, want string) {
 	s.s.Emit(line, want)
 	s.s.Count("line kind", kind)
-	if !s.samples[kind] && len(line) < 300 && (kind == "gen" || kind == "hasmany" || kind == "hash") {
+	if !s.samples[kind] && len(line) < 300 && len(line) > 30 && (kind == "gen" || kind == "hasmany" || kind == "hash") {
 		s.samples[kind] = true
 		s.s.Sample(map[string]string{"kind": kind, "driver_line": line, "implementation": want})
 	}
